@@ -329,6 +329,64 @@ def _abstract_harness(F):
     return Harness(F, {'extra_leaf': xl})
 
 
+_LEMMA = {}
+
+
+def slerp_lemma(n, is_quat):
+    """the semantic clause, as a lemma about the formula the code was just shown to compute: with t = acos(c) exactly and sines / cosines of sums
+    expanded by the addition formulas,  r = (sin((1-s) t) a^ + sin(s t) b^) / sin t  satisfies  a.r = |a| |r| cos(s t),  b.r = |b| |r| cos((1-s) t)  and
+    |r| = 1 (unit quaternions, c = a.b) / |r| = |a| + s (|b| - |a|) (vectors, c = a.b / |a||b|): the angle from the start is s times the total angle.
+    Checked mechanically once per shape; returns None when it holds, else the failing clause."""
+    if not is_quat:
+        n = 2      # the three claims involve a, b, r = alpha a + beta b only through a.a, b.b, a.b, which are algebraically independent already in the plane
+    key = (n, is_quat)
+    if key in _LEMMA:
+        return _LEMMA[key]
+    from post import unit_relation
+    alg = nf.Algebra()
+    alg.budget = 400000
+    alg.expand_angles = True
+    alg.acos_exact = True
+    S = Spec(alg)
+    A = [tm.atom('lemma_a%d' % i) for i in range(n)]
+    B = [tm.atom('lemma_b%d' % i) for i in range(n)]
+    if is_quat:
+        unit_relation(alg, A)
+        unit_relation(alg, B)
+    a = [alg.nf(x) for x in A]
+    b = [alg.nf(x) for x in B]
+    s_ = alg.nf(tm.atom('lemma_s'))
+    dot = S.dot(a, b)
+    res = None
+    try:
+        if is_quat:
+            c = dot
+            la = lb = L = S.c(1)
+            aa, bb = a, b
+        else:
+            la, lb = alg.sqrt_r(S.dot(a, a)), alg.sqrt_r(S.dot(b, b))
+            c = S.div(dot, S.mul(la, lb))
+            L = S.add(la, S.mul(s_, S.sub(lb, la)))
+            aa = [S.mul(x, S.div(L, la)) for x in a]
+            bb = [S.mul(x, S.div(L, lb)) for x in b]
+        theta = alg.fn_r('acos_approx', [c])
+        t1 = alg.sin_r(S.mul(theta, S.sub(S.c(1), s_)))
+        t2 = alg.sin_r(S.mul(theta, s_))
+        st_ = alg.sin_r(theta)
+        r = [S.div(S.add(S.mul(x, t1), S.mul(y, t2)), st_) for x, y in zip(aa, bb)]
+        zero = lambda x: alg.reduce(x[0]).is_zero()
+        if not zero(S.sub(S.dot(r, r), S.mul(L, L))):
+            res = '|result| is not %s' % ('1' if is_quat else '|a| + s (|b| - |a|)')
+        elif not zero(S.sub(S.dot(a, r), S.mul(la, L, alg.cos_r(S.mul(theta, s_))))):
+            res = 'the angle between the start and the result is not s times the total angle'
+        elif not zero(S.sub(S.dot(b, r), S.mul(lb, L, alg.cos_r(S.mul(theta, S.sub(S.c(1), s_)))))):
+            res = 'the angle between the result and the end is not (1 - s) times the total angle'
+    except ValueError as e:
+        res = 'lemma not normalisable: %s' % e
+    _LEMMA[key] = res
+    return res
+
+
 def check_slerp(ctx, cfg, F, done):
     """slerp(a, b, s): with b' = -b when a.b < 0 (quaternions: shorter arc), c = |a.b| (quaternions) or a.b / (|a||b|) (vectors) and theta = acos_approx(c),
     the spherical branch returns (sin((1-s) theta) a^ + sin(s theta) b^) / sin(theta) (vectors: a^ = a L/|a|, b^ = b L/|b|, L = |a| + s(|b| - |a|));
@@ -405,6 +463,10 @@ def check_slerp(ctx, cfg, F, done):
                     break
             if ok:
                 n_sph += 1
+                why = slerp_lemma(len(views[0].lanes), is_quat)
+                if why:
+                    bad = why
+                    break
             else:
                 bad = 'a spherical branch is not (sin((1-s) t) a + sin(s t) b) / sin(t) with t = acos_approx(cos of the angle): lane 0 is %s' % got[0][0].show(alg.name, 6)
                 break
